@@ -338,3 +338,269 @@ pub proof fn lemma_next_done<P: Prefix, T>(t: Seq<Node<P, T>>, st0: Seq<usize>, 
         assert(remaining(t, tlive(t), st, m) == remaining(t, tlive(t), st0, m));
     }
 }
+
+// ---- key / value projections of next_spec ----
+
+pub open spec fn next_key_spec<'a, P: Prefix, T>(tb: Option<&'a Table<P, T>>, st0: Seq<usize>, st1: Seq<usize>, r: Option<&P>) -> bool {
+    match tb {
+        None => r.is_none() && st1.len() == 0,
+        Some(x) => {
+            let t = x.0@; let live = tlive(t);
+            match r {
+                Some(e) => exists|n: int| #[trigger] yields(t, live, st0, st1, n) && *e == t[n].prefix,
+                None => (forall|m: int| !#[trigger] remaining(t, live, st0, m)) && st1.len() == 0,
+            }
+        },
+    }
+}
+
+pub open spec fn next_val_spec<'a, P: Prefix, T>(tb: Option<&'a Table<P, T>>, st0: Seq<usize>, st1: Seq<usize>, r: Option<&T>) -> bool {
+    match tb {
+        None => r.is_none() && st1.len() == 0,
+        Some(x) => {
+            let t = x.0@; let live = tlive(t);
+            match r {
+                Some(e) => exists|n: int| #[trigger] yields(t, live, st0, st1, n) && *e == t[n].value.unwrap(),
+                None => (forall|m: int| !#[trigger] remaining(t, live, st0, m)) && st1.len() == 0,
+            }
+        },
+    }
+}
+
+/// a freshly created traversal starting at node `start` yields exactly the stored entries covered by kb(start)
+pub open spec fn iter_from<'a, P: Prefix, T>(tbl: &'a Table<P, T>, it_table: Option<&'a Table<P, T>>, st: Seq<usize>, start: int) -> bool {
+    let t = tbl.0@;
+    it_table == Some(tbl) && st =~= seq![start as usize] && it_ok(it_table, st)
+        && (forall|n: int| #[trigger] remaining(t, tlive(t), st, n) == (stored(t, tlive(t), n) && pre(kb(t, start), kb(t, n))))
+}
+
+pub proof fn lemma_iter_from<P: Prefix, T>(tbl: &Table<P, T>, st: Seq<usize>, start: int)
+    requires twf(tbl.0@), tlive(tbl.0@).contains(start), st =~= seq![start as usize], 0 <= start <= usize::MAX
+    ensures iter_from(tbl, Some(tbl), st, start)
+{
+    let t = tbl.0@;
+    lemma_stack_single(t, tlive(t), st);
+    assert forall|n: int| #[trigger] remaining(t, tlive(t), st, n) == (stored(t, tlive(t), n) && pre(kb(t, start), kb(t, n))) by {
+        if pre(kb(t, start), kb(t, n)) { assert(pre(kb(t, st[0] as int), kb(t, n))); }
+    }
+}
+
+/// the whole-map traversal: every stored entry remains
+pub proof fn lemma_iter_all<P: Prefix, T>(m: PrefixMap<P, T>, st: Seq<usize>)
+    requires m.wf_shape(), st =~= seq![0usize]
+    ensures
+        twf(m.tab()), tlive(m.tab()) =~= m.live(),
+        iter_from(&m.table, Some(&m.table), st, 0),
+        forall|n: int| #[trigger] remaining(m.tab(), tlive(m.tab()), st, n) == stored(m.tab(), m.live(), n),
+{
+    let t = m.tab();
+    lemma_tlive(t, m.live());
+    lemma_root(t, m.live(), Seq::<bool>::empty());
+    lemma_iter_from(&m.table, st, 0);
+    assert forall|n: int| #[trigger] remaining(t, tlive(t), st, n) == stored(t, m.live(), n) by {
+        if stored(t, m.live(), n) { lemma_root_covers(t, m.live(), st, n); }
+    }
+}
+
+// ---- children(q): start stack (C10) ----
+
+/// st is the start stack for the sub-trie selected by q: its single member's region holds exactly the live nodes covered by q
+pub open spec fn start_for<P: Prefix, T>(t: Seq<Node<P, T>>, live: ISet<int>, q: Seq<bool>, st: Seq<usize>) -> bool {
+    st.len() <= 1
+        && (st.len() == 1 ==> live.contains(st[0] as int)
+                && (forall|n: int| #![trigger live.contains(n)] live.contains(n) ==> (pre(q, kb(t, n)) == pre(kb(t, st[0] as int), kb(t, n)))))
+        && (st.len() == 0 ==> (forall|n: int| #![trigger live.contains(n)] live.contains(n) ==> !pre(q, kb(t, n))))
+}
+
+pub proof fn lemma_start_reached<P: Prefix, T>(t: Seq<Node<P, T>>, live: ISet<int>, q: Seq<bool>, idx: int, st: Seq<usize>)
+    requires live.contains(idx), kb(t, idx) =~= q, st =~= seq![idx as usize], 0 <= idx <= usize::MAX
+    ensures start_for(t, live, q, st)
+{
+    assert(kb(t, st[0] as int) == q);
+}
+
+pub proof fn lemma_start_child<P: Prefix, T>(t: Seq<Node<P, T>>, live: ISet<int>, q: Seq<bool>, idx: int, st: Seq<usize>)
+    requires
+        twf_live(t, live), live.contains(idx), pre(kb(t, idx), q), !(kb(t, idx) =~= q),
+        chd(t, idx, next_bit(kb(t, idx), q)).is_some(),
+        pre(q, kb(t, chd(t, idx, next_bit(kb(t, idx), q)).unwrap() as int)),
+        st =~= seq![chd(t, idx, next_bit(kb(t, idx), q)).unwrap()],
+    ensures start_for(t, live, q, st)
+{
+    lemma_step(t, live, idx, q);
+    let c = chd(t, idx, next_bit(kb(t, idx), q)).unwrap() as int;
+    assert forall|n: int| #![trigger live.contains(n)] live.contains(n) implies (pre(q, kb(t, n)) == pre(kb(t, st[0] as int), kb(t, n))) by {
+        lemma_region_same(t, live, idx, q, n);
+    }
+}
+
+pub proof fn lemma_start_none<P: Prefix, T>(t: Seq<Node<P, T>>, live: ISet<int>, q: Seq<bool>, idx: int, st: Seq<usize>)
+    requires
+        twf_live(t, live), live.contains(idx), pre(kb(t, idx), q), !(kb(t, idx) =~= q),
+        chd(t, idx, next_bit(kb(t, idx), q)).is_none()
+            || (!pre(q, kb(t, chd(t, idx, next_bit(kb(t, idx), q)).unwrap() as int)) && !pre(kb(t, chd(t, idx, next_bit(kb(t, idx), q)).unwrap() as int), q)),
+        st.len() == 0,
+    ensures start_for(t, live, q, st)
+{
+    assert forall|n: int| #![trigger live.contains(n)] live.contains(n) implies !pre(q, kb(t, n)) by {
+        lemma_region_empty(t, live, idx, q, n);
+    }
+}
+
+/// an iterator started on start_for(q) yields exactly the stored entries covered by q
+pub proof fn lemma_children_iter<P: Prefix, T>(tbl: &Table<P, T>, q: Seq<bool>, st: Seq<usize>)
+    requires twf(tbl.0@), start_for(tbl.0@, tlive(tbl.0@), q, st)
+    ensures
+        it_ok(Some(tbl), st),
+        forall|n: int| #[trigger] remaining(tbl.0@, tlive(tbl.0@), st, n) == (stored(tbl.0@, tlive(tbl.0@), n) && pre(q, kb(tbl.0@, n))),
+{
+    let t = tbl.0@; let live = tlive(t);
+    lemma_stack_single(t, live, st);
+    assert forall|n: int| #[trigger] remaining(t, live, st, n) == (stored(t, live, n) && pre(q, kb(t, n))) by {
+        if live.contains(n) {
+            if st.len() == 1 {
+                if pre(kb(t, st[0] as int), kb(t, n)) { assert(covered(t, st, n)); }
+            }
+        }
+    }
+}
+
+// ---- cover(q): lazy walk along the path to q (C09) ----
+
+/// stored node n is still to be yielded by a Cover whose position is `idx`
+pub open spec fn pending<P: Prefix, T>(t: Seq<Node<P, T>>, live: ISet<int>, idx: Option<usize>, q: Seq<bool>, n: int) -> bool {
+    stored(t, live, n) && pre(kb(t, n), q) && (idx.is_some() ==> spre(kb(t, idx.unwrap() as int), kb(t, n)))
+}
+
+pub open spec fn cover_ok<P: Prefix, T>(t: Seq<Node<P, T>>, idx: Option<usize>, q: Seq<bool>) -> bool {
+    twf(t) && (idx.is_some() ==> tlive(t).contains(idx.unwrap() as int) && pre(kb(t, idx.unwrap() as int), q))
+}
+
+/// [C09] node n is yielded: it is the shortest pending entry, and afterwards exactly the longer ones are pending
+pub open spec fn cover_yields<P: Prefix, T>(t: Seq<Node<P, T>>, live: ISet<int>, idx0: Option<usize>, idx1: Option<usize>, q: Seq<bool>, n: int) -> bool {
+    pending(t, live, idx0, q, n)
+        && (forall|m: int| #[trigger] pending(t, live, idx0, q, m) && m != n ==> kb(t, n).len() < kb(t, m).len())
+        && (forall|m: int| #[trigger] pending(t, live, idx1, q, m) == (pending(t, live, idx0, q, m) && m != n))
+}
+
+pub open spec fn cover_next_spec<P: Prefix, T>(t: Seq<Node<P, T>>, idx0: Option<usize>, idx1: Option<usize>, q: Seq<bool>, r: Option<(&P, &T)>) -> bool {
+    let live = tlive(t);
+    match r {
+        Some(e) => exists|n: int| #[trigger] cover_yields(t, live, idx0, idx1, q, n) && *e.0 == t[n].prefix && *e.1 == t[n].value.unwrap(),
+        None => (forall|m: int| !#[trigger] pending(t, live, idx0, q, m)) && (forall|m: int| !#[trigger] pending(t, live, idx1, q, m)),
+    }
+}
+
+/// first call: position None -> Some(0)
+pub proof fn lemma_cover_first<P: Prefix, T>(t: Seq<Node<P, T>>, q: Seq<bool>)
+    requires twf(t)
+    ensures
+        t.len() >= 1, tlive(t).contains(0), pre(kb(t, 0), q),
+        t[0].value.is_some() ==> cover_yields(t, tlive(t), None, Some(0usize), q, 0),
+        t[0].value.is_none() ==> (forall|m: int| #[trigger] pending(t, tlive(t), Some(0usize), q, m) == pending(t, tlive(t), None, q, m)),
+{
+    let live = tlive(t);
+    lemma_twf(t);
+    lemma_root(t, live, q);
+    assert forall|m: int| live.contains(m) && m != 0 implies spre(kb(t, 0), kb(t, m)) by {
+        if kb(t, m).len() == 0 { lemma_uniq(t, live, 0, m); }
+    }
+    if t[0].value.is_some() {
+        assert(pending(t, live, None, q, 0));
+        assert forall|m: int| #[trigger] pending(t, live, Some(0usize), q, m) == (pending(t, live, None, q, m) && m != 0) by { }
+    } else {
+        assert forall|m: int| #[trigger] pending(t, live, Some(0usize), q, m) == pending(t, live, None, q, m) by { }
+    }
+}
+
+/// one step from position i along the path to q
+pub proof fn lemma_cover_step<P: Prefix, T>(t: Seq<Node<P, T>>, q: Seq<bool>, i: usize)
+    requires twf(t), tlive(t).contains(i as int), pre(kb(t, i as int), q)
+    ensures
+        step_bounds(t, tlive(t), i as int),
+        path_ends(t, i as int, q) ==> (forall|m: int| !#[trigger] pending(t, tlive(t), Some(i), q, m)),
+{
+    let live = tlive(t);
+    let idx = i as int;
+    lemma_twf(t);
+    lemma_step(t, live, idx, q);
+    if path_ends(t, idx, q) {
+        assert forall|m: int| !#[trigger] pending(t, live, Some(i), q, m) by {
+            if pending(t, live, Some(i), q, m) { assert(on_path_below(t, live, idx, q, m)); }
+        }
+    }
+}
+
+/// the walk enters the child c of i
+pub proof fn lemma_cover_enter<P: Prefix, T>(t: Seq<Node<P, T>>, q: Seq<bool>, i: usize, c: usize)
+    requires twf(t), tlive(t).contains(i as int), pre(kb(t, i as int), q), !path_ends(t, i as int, q), c as int == path_next(t, i as int, q)
+    ensures
+        tlive(t).contains(c as int), pre(kb(t, c as int), q), c < t.len(),
+        t[c as int].value.is_some() ==> cover_yields(t, tlive(t), Some(i), Some(c), q, c as int),
+        t[c as int].value.is_none() ==> (forall|m: int| #[trigger] pending(t, tlive(t), Some(c), q, m) == pending(t, tlive(t), Some(i), q, m)),
+{
+    let live = tlive(t);
+    let idx = i as int;
+    let cc = c as int;
+    lemma_twf(t);
+    lemma_step(t, live, idx, q);
+    assert(live.contains(cc));
+    assert forall|m: int| #[trigger] pending(t, live, Some(i), q, m) implies pre(kb(t, cc), kb(t, m)) by {
+        assert(on_path_below(t, live, idx, q, m));
+    }
+    assert forall|m: int| #[trigger] pending(t, live, Some(c), q, m) == (pending(t, live, Some(i), q, m) && m != cc) by {
+        if pending(t, live, Some(i), q, m) && m != cc {
+            if kb(t, m) =~= kb(t, cc) { lemma_uniq(t, live, m, cc); }
+        }
+        if pending(t, live, Some(c), q, m) {
+            lemma_pre_trans(kb(t, idx), kb(t, cc), kb(t, m));
+        }
+    }
+    if t[cc].value.is_some() {
+        assert(pending(t, live, Some(i), q, cc));
+        assert forall|m: int| #[trigger] pending(t, live, Some(i), q, m) && m != cc implies kb(t, cc).len() < kb(t, m).len() by {
+            if kb(t, m) =~= kb(t, cc) { lemma_uniq(t, live, m, cc); }
+        }
+    } else {
+        assert forall|m: int| #[trigger] pending(t, live, Some(c), q, m) == pending(t, live, Some(i), q, m) by { }
+    }
+}
+
+/// transitivity helpers for the loop of Cover::next
+pub proof fn lemma_cover_chain<P: Prefix, T>(t: Seq<Node<P, T>>, q: Seq<bool>, i0: Option<usize>, i1: Option<usize>, i2: Option<usize>)
+    requires
+        forall|m: int| #[trigger] pending(t, tlive(t), i1, q, m) == pending(t, tlive(t), i0, q, m),
+        forall|m: int| #[trigger] pending(t, tlive(t), i2, q, m) == pending(t, tlive(t), i1, q, m),
+    ensures forall|m: int| #[trigger] pending(t, tlive(t), i2, q, m) == pending(t, tlive(t), i0, q, m)
+{
+    assert forall|m: int| #[trigger] pending(t, tlive(t), i2, q, m) == pending(t, tlive(t), i0, q, m) by {
+        assert(pending(t, tlive(t), i1, q, m) == pending(t, tlive(t), i0, q, m));
+    }
+}
+
+pub proof fn lemma_cover_yield_chain<P: Prefix, T>(t: Seq<Node<P, T>>, q: Seq<bool>, i0: Option<usize>, i1: Option<usize>, i2: Option<usize>, n: int)
+    requires
+        forall|m: int| #[trigger] pending(t, tlive(t), i1, q, m) == pending(t, tlive(t), i0, q, m),
+        cover_yields(t, tlive(t), i1, i2, q, n),
+    ensures cover_yields(t, tlive(t), i0, i2, q, n)
+{
+    let live = tlive(t);
+    assert(pending(t, live, i1, q, n) == pending(t, live, i0, q, n));
+    assert forall|m: int| #[trigger] pending(t, live, i0, q, m) && m != n implies kb(t, n).len() < kb(t, m).len() by {
+        assert(pending(t, live, i1, q, m) == pending(t, live, i0, q, m));
+    }
+    assert forall|m: int| #[trigger] pending(t, live, i2, q, m) == (pending(t, live, i0, q, m) && m != n) by {
+        assert(pending(t, live, i1, q, m) == pending(t, live, i0, q, m));
+    }
+}
+
+pub proof fn lemma_cover_none_chain<P: Prefix, T>(t: Seq<Node<P, T>>, q: Seq<bool>, i0: Option<usize>, i1: Option<usize>)
+    requires
+        forall|m: int| #[trigger] pending(t, tlive(t), i1, q, m) == pending(t, tlive(t), i0, q, m),
+        forall|m: int| !#[trigger] pending(t, tlive(t), i1, q, m),
+    ensures forall|m: int| !#[trigger] pending(t, tlive(t), i0, q, m)
+{
+    assert forall|m: int| !#[trigger] pending(t, tlive(t), i0, q, m) by {
+        assert(pending(t, tlive(t), i1, q, m) == pending(t, tlive(t), i0, q, m));
+    }
+}
